@@ -7,5 +7,6 @@ CONSTANTS
   Horizon = 6
   PerConn = FALSE
   NoWait = TRUE
+  MaxWait = 0
 INVARIANT RateBound
 CHECK_DEADLOCK FALSE
